@@ -75,7 +75,7 @@ func BuildDriverFacts(w *World) (*DriverFacts, error) {
 			continue
 		}
 		if len(fn.Params) >= 2 {
-			if k := ifaceKind(fn.Params[1].Type()); k != "" {
+			if k := ifaceKind(fn.Params[1].Type()); k != "" && (k == "block" || dispatchesOn(fn, fn.Params[1])) {
 				df.rec[fn] = k
 			}
 		}
@@ -132,8 +132,17 @@ func accessorPath(v ssa.Value, node *ssa.Parameter, depth int) string {
 			return name
 		}
 		return base + "." + name
+	case *ssa.FreeVar:
+		// a variable of the handler captured by a step written as a function literal
+		if o, ok := freeVarOuter[x]; ok {
+			return accessorPath(o.v, o.node, depth+1)
+		}
 	case *ssa.UnOp:
 		switch a := x.X.(type) {
+		case *ssa.FreeVar:
+			if o, ok := freeVarOuter[a]; ok {
+				return accessorPath(o.v, o.node, depth+1)
+			}
 		case *ssa.IndexAddr:
 			if accessorListHook != nil {
 				if s, ok := accessorListHook(a.X, a.Index); ok {
@@ -178,6 +187,15 @@ func accessorPath(v ssa.Value, node *ssa.Parameter, depth int) string {
 	}
 	return "?"
 }
+
+// freeVarOuter: the value a free variable of a function literal stands for in the handler that
+// wrote the literal, with the handler's node parameter (set while the literal's events are read).
+type outerVal struct {
+	v    ssa.Value
+	node *ssa.Parameter
+}
+
+var freeVarOuter = map[*ssa.FreeVar]outerVal{}
 
 // accessorListHook (set while the events of one function are collected): the element of a
 // locally built list at the index of a range loop, as a placeholder that the path
@@ -288,6 +306,38 @@ func (df *DriverFacts) traces(fn *ssa.Function, iface *types.Interface) ([][]str
 			if c.Call.IsInvoke() {
 				if types.Identical(c.Call.Value.Type().Underlying(), iface) {
 					events[b] = append(events[b], "conv("+c.Call.Method.Name()+")")
+				}
+				continue
+			}
+			// steps handed to a sequencing helper (run one after the other, the first error ends the
+			// sequence): the events of each step, in the order in which the steps are handed over
+			if bi, ok := c.Call.Value.(*ssa.Builtin); ok && bi.Name() == "append" && len(c.Call.Args) == 2 && isStepList(c.Type()) {
+				if evs, ok := df.stepEvents(appendedValues(c.Call.Args[1]), fn, node, iface); ok && df.onlyRunBy(c, fn) {
+					events[b] = append(events[b], evs...)
+					continue
+				}
+			}
+			if callee := c.Call.StaticCallee(); callee != nil && isThenCombinator(callee) {
+				var fs []ssa.Value
+				for _, a := range c.Call.Args[1:] {
+					fs = append(fs, a)
+				}
+				if evs, ok := df.stepEvents(fs, fn, node, iface); ok {
+					events[b] = append(events[b], evs...)
+					continue
+				}
+			}
+			if callee := c.Call.StaticCallee(); callee != nil && isStepRunner(callee) {
+				// a list written out at the call
+				if len(c.Call.Args) > 0 {
+					last := c.Call.Args[len(c.Call.Args)-1]
+					if _, isAppend := last.(*ssa.Call); !isAppend {
+						if vals := appendedValues(last); len(vals) > 0 {
+							if evs, ok := df.stepEvents(vals, fn, node, iface); ok {
+								events[b] = append(events[b], evs...)
+							}
+						}
+					}
 				}
 				continue
 			}
@@ -1235,6 +1285,317 @@ func (df *DriverFacts) partOfHandler(d *DriverFn) bool {
 			continue
 		}
 		if callsStatically(o.Fn, d.Fn) && !callsStatically(d.Fn, o.Fn) {
+			return true
+		}
+	}
+	return false
+}
+
+// ---- steps: statements driven as a list of functions --------------------------------------------
+
+func isStepFunc(t types.Type) bool {
+	sig, ok := t.Underlying().(*types.Signature)
+	return ok && sig.Params().Len() == 0 && sig.Results().Len() == 1 && isErrorType(sig.Results().At(0).Type())
+}
+
+func isStepList(t types.Type) bool {
+	sl, ok := t.Underlying().(*types.Slice)
+	return ok && isStepFunc(sl.Elem())
+}
+
+// appendedValues: the elements of the variadic part of append(list, a, b, c) / of a list literal.
+func appendedValues(v ssa.Value) []ssa.Value {
+	sl, ok := v.(*ssa.Slice)
+	if !ok {
+		return nil
+	}
+	al, ok := sl.X.(*ssa.Alloc)
+	if !ok || al.Referrers() == nil {
+		return nil
+	}
+	byIdx := map[int64]ssa.Value{}
+	for _, r := range *al.Referrers() {
+		ia, ok := r.(*ssa.IndexAddr)
+		if !ok || ia.Referrers() == nil {
+			continue
+		}
+		k, ok := ia.Index.(*ssa.Const)
+		if !ok || k.Value == nil {
+			return nil
+		}
+		idx, _ := constant.Int64Val(k.Value)
+		for _, rr := range *ia.Referrers() {
+			if st, ok := rr.(*ssa.Store); ok && st.Addr == ssa.Value(ia) {
+				byIdx[idx] = st.Val
+			}
+		}
+	}
+	var out []ssa.Value
+	for i := int64(0); i < int64(len(byIdx)); i++ {
+		x, ok := byIdx[i]
+		if !ok {
+			return nil
+		}
+		out = append(out, x)
+	}
+	return out
+}
+
+// isThenCombinator: a method with one step parameter that runs the step exactly when the error
+// kept in its receiver is still nil and keeps the step's error there: s.then(step).
+func isThenCombinator(fn *ssa.Function) bool {
+	if fn == nil || fn.Blocks == nil || fn.Signature.Recv() == nil || len(fn.Params) != 2 || !isStepFunc(fn.Params[1].Type()) || len(fn.Blocks) > 4 {
+		return false
+	}
+	step := fn.Params[1]
+	var call *ssa.Call
+	calls := 0
+	for _, b := range fn.Blocks {
+		for _, ins := range b.Instrs {
+			if c, ok := ins.(*ssa.Call); ok {
+				calls++
+				if c.Call.Value == ssa.Value(step) {
+					call = c
+				}
+			}
+		}
+	}
+	if call == nil || calls != 1 {
+		return false
+	}
+	// the call's result is stored into an error field of the receiver
+	stored := false
+	var errField *ssa.FieldAddr
+	for _, r := range *call.Referrers() {
+		if st, ok := r.(*ssa.Store); ok && st.Val == ssa.Value(call) {
+			if fa, ok := st.Addr.(*ssa.FieldAddr); ok && fa.X == ssa.Value(fn.Params[0]) {
+				stored, errField = true, fa
+			}
+		}
+	}
+	if !stored {
+		return false
+	}
+	// … and made on the "still nil" side of a test of that field, which the entry block makes
+	entry := fn.Blocks[0]
+	cnd, neg := condOf(entry)
+	bo, ok := cnd.(*ssa.BinOp)
+	if !ok || len(entry.Succs) != 2 {
+		return false
+	}
+	isFieldLoad := func(v ssa.Value) bool {
+		u, ok := v.(*ssa.UnOp)
+		if !ok {
+			return false
+		}
+		fa, ok := u.X.(*ssa.FieldAddr)
+		return ok && fa.X == ssa.Value(fn.Params[0]) && fa.Field == errField.Field
+	}
+	isNilC := func(v ssa.Value) bool { k, ok := v.(*ssa.Const); return ok && k.IsNil() }
+	if !((isFieldLoad(bo.X) && isNilC(bo.Y)) || (isFieldLoad(bo.Y) && isNilC(bo.X))) {
+		return false
+	}
+	onNil := entry.Succs[0]
+	if (bo.Op == token.NEQ) != neg {
+		onNil = entry.Succs[1]
+	}
+	return onNil == call.Block() || onNil.Dominates(call.Block())
+}
+
+// isStepRunner: a function that is handed a list of steps and calls them in order, handing back
+// the first error: for _, s := range steps { if err := s(); err != nil { return err } }; return nil
+func isStepRunner(fn *ssa.Function) bool {
+	if fn == nil || fn.Blocks == nil || len(fn.Params) == 0 {
+		return false
+	}
+	lst := fn.Params[len(fn.Params)-1]
+	if !isStepList(lst.Type()) {
+		return false
+	}
+	calls, elemCalls := 0, 0
+	for _, b := range fn.Blocks {
+		for _, ins := range b.Instrs {
+			c, ok := ins.(*ssa.Call)
+			if !ok {
+				continue
+			}
+			if bi, isB := c.Call.Value.(*ssa.Builtin); isB && bi.Name() == "len" {
+				continue
+			}
+			calls++
+			// the element at the range index
+			if u, ok := c.Call.Value.(*ssa.UnOp); ok {
+				if ia, ok := u.X.(*ssa.IndexAddr); ok && ia.X == ssa.Value(lst) && rangeIndexOf(ia.Index) != nil {
+					elemCalls++
+					// its error ends the function when it is not nil
+					okExit := false
+					for _, r := range *c.Referrers() {
+						if bo, ok := r.(*ssa.BinOp); ok && bo.Op == token.NEQ {
+							for _, rr := range *bo.Referrers() {
+								if ifi, ok := rr.(*ssa.If); ok {
+									if ret, ok := ifi.Block().Succs[0].Instrs[len(ifi.Block().Succs[0].Instrs)-1].(*ssa.Return); ok && len(ret.Results) == 1 && ret.Results[0] == ssa.Value(c) {
+										okExit = true
+									}
+								}
+							}
+						}
+					}
+					if !okExit {
+						return false
+					}
+				}
+			}
+		}
+	}
+	return calls == 1 && elemCalls == 1
+}
+
+// onlyRunBy: the list this append extends is only extended further and handed, in the end, to a
+// step runner (so the order of the appends is the order in which the steps run), and the handler
+// makes no other driver or converter call of its own in between.
+func (df *DriverFacts) onlyRunBy(c *ssa.Call, fn *ssa.Function) bool {
+	seen := map[ssa.Value]bool{}
+	var ok func(v ssa.Value) bool
+	ok = func(v ssa.Value) bool {
+		if seen[v] {
+			return true
+		}
+		seen[v] = true
+		refs := v.Referrers()
+		if refs == nil {
+			return false
+		}
+		used := false
+		for _, r := range *refs {
+			switch y := r.(type) {
+			case *ssa.DebugRef:
+			case *ssa.Phi:
+				used = true
+				if !ok(y) {
+					return false
+				}
+			case *ssa.Call:
+				used = true
+				if bi, isB := y.Call.Value.(*ssa.Builtin); isB && bi.Name() == "append" && y.Call.Args[0] == v {
+					if !ok(y) {
+						return false
+					}
+					continue
+				}
+				if callee := y.Call.StaticCallee(); callee != nil && isStepRunner(callee) {
+					continue
+				}
+				return false
+			default:
+				return false
+			}
+		}
+		return used
+	}
+	if !ok(c) {
+		return false
+	}
+	// nothing else in the handler produces events
+	for _, b := range fn.Blocks {
+		for _, ins := range b.Instrs {
+			cc, isCall := ins.(*ssa.Call)
+			if !isCall {
+				continue
+			}
+			if cc.Call.IsInvoke() {
+				return false
+			}
+			if callee := cc.Call.StaticCallee(); callee != nil {
+				if _, isRec := df.rec[callee]; isRec {
+					return false
+				}
+			}
+		}
+	}
+	return true
+}
+
+// stepEvents: the events of the given steps, in order. A step is a method of the converter taken
+// as a value (conv.ForStart), or a function literal of the handler whose success paths all make
+// the same events.
+func (df *DriverFacts) stepEvents(steps []ssa.Value, fn *ssa.Function, node *ssa.Parameter, iface *types.Interface) ([]string, bool) {
+	if len(steps) == 0 {
+		return nil, false
+	}
+	var out []string
+	for _, sv := range steps {
+		for {
+			if ct, ok := sv.(*ssa.ChangeType); ok {
+				sv = ct.X
+				continue
+			}
+			break
+		}
+		var lit *ssa.Function
+		var mc *ssa.MakeClosure
+		switch y := sv.(type) {
+		case *ssa.MakeClosure:
+			mc = y
+			lit, _ = y.Fn.(*ssa.Function)
+		case *ssa.Function:
+			lit = y
+		}
+		if lit == nil {
+			return nil, false
+		}
+		if mc != nil && lit.Synthetic != "" && strings.HasSuffix(lit.Name(), "$bound") && len(mc.Bindings) == 1 {
+			// a method value
+			if types.Identical(mc.Bindings[0].Type().Underlying(), iface) {
+				out = append(out, "conv("+strings.TrimSuffix(lit.Name(), "$bound")+")")
+				continue
+			}
+			// a method of the driver itself (t.evaluateSomething handed over as a step) is not followed
+			return nil, false
+		}
+		if lit.Parent() != fn || lit.Blocks == nil {
+			return nil, false
+		}
+		if mc != nil {
+			for i, fv := range lit.FreeVars {
+				if i < len(mc.Bindings) {
+					freeVarOuter[fv] = outerVal{mc.Bindings[i], node}
+				}
+			}
+		}
+		saveHook := accessorListHook
+		df.depth++
+		sub, trunc := df.traces(lit, iface)
+		df.depth--
+		accessorListHook = saveHook
+		if trunc || len(sub) == 0 {
+			return nil, false
+		}
+		sub = stripMarkers(sub)
+		first := strings.Join(sub[0], " ")
+		for _, t := range sub[1:] {
+			if strings.Join(t, " ") != first {
+				return nil, false
+			}
+		}
+		out = append(out, sub[0]...)
+	}
+	return out, true
+}
+
+// dispatchesOn: the function decides by the kind of node it was handed (it asks for the node's
+// tag, or asserts its type): the mark of the driver's evaluate / evaluateExpression, as opposed
+// to a helper that is handed an expression and evaluates it.
+func dispatchesOn(fn *ssa.Function, p *ssa.Parameter) bool {
+	if p.Referrers() == nil {
+		return false
+	}
+	for _, r := range *p.Referrers() {
+		switch x := r.(type) {
+		case *ssa.Call:
+			if x.Call.IsInvoke() && x.Call.Value == ssa.Value(p) && x.Call.Method.Name() == "StatementType" {
+				return true
+			}
+		case *ssa.TypeAssert:
 			return true
 		}
 	}
